@@ -17,6 +17,7 @@ import DrummerVerif.Lemmas.Renew
 import DrummerVerif.Lemmas.Rounds
 import DrummerVerif.Lemmas.C01F
 import DrummerVerif.Lemmas.C01A
+import DrummerVerif.Lemmas.C01J
 /-!
 # C01 — self-healing: the control loop restores every shard after faults stop (PARTIAL: safety invariants and per-round progress lemmas; the convergence bound is decided by the correspondence run, see DESIGN.md)
 
@@ -660,6 +661,22 @@ theorem replacement_member_is_added :
             (∀ s, s ≠ c.shardId → Loop.group? (Loop.execute l2 via.address) s = Loop.group? l s) ∧
             (Loop.execute l2 via.address).db.requests = [] ∧ (∀ x ∈ (Loop.execute l2 via.address).hosts, x.queue = []) :=
   @_root_.Drummer.replacement_member_is_added
+
+/-- the replacement path, second round: once the new member is in the view (never reported: waiting to be started), the
+lost member still failed and not restorable, and no removal due yet, the round is exactly the join request for the new
+member, addressed to its NodeHost, no draw consumed. Kernel-evaluated instance: `Props/WitnessJoin.joins`. -/
+theorem round_for_a_waiting_member_is_one_join :
+    ∀ (d : DB) (cx : Ctx), CtxOnce d cx → ∀ (draws rest : List Nat) (rs : List Request),
+      maintain cx draws = SRes.ok rs rest → d.image.toKill = [] →
+        ∀ (c : Shard), c ∈ d.image.shards → ∀ (t : Replica), Shard.toStart c d.tick = [t] →
+          (∀ c' ∈ d.image.shards, c' ≠ c → Shard.failedReplicas c' d.tick = [] ∧ Shard.toStart c' d.tick = []) →
+            ∀ (dd : ShardDef), dd ∈ d.shards → dd.shardId = c.shardId →
+              (∀ dx ∈ d.shards, dx.shardId = c.shardId →
+                (Shard.failedReplicas c d.tick).length + (Shard.okReplicas c d.tick).length ≤ dx.members.length) →
+                (∀ m ∈ Shard.failedReplicas c d.tick, ∀ spec, hostFind? d.hosts m.address = some spec →
+                  (HostSpec.available spec d.tick && HostSpec.hasLog spec m.shardId m.replicaId) = false) →
+                  ∃ app, rs = [createReq t c app true false] ∧ rest = draws :=
+  @_root_.Drummer.round_is_one_join
 
 /-- where "Drummer holds the NodeHost's log record" comes from: the first report of a NodeHost after it came back (and every
 third one) announces its persisted logs; afterwards the replicated state has a record under the NodeHost's address,
